@@ -4,6 +4,7 @@ package main
 // matching is by canonical, type-resolved name (types.Func.FullName()).
 
 import (
+	"os"
 	"fmt"
 	"go/types"
 	"sort"
@@ -371,4 +372,70 @@ func sliceElems(s Summary, t *Term) ([]*Term, bool) {
 		return els, len(els) > 0
 	}
 	return nil, false
+}
+
+// fieldByTypeCtor is fieldByType with one more way to tell fields of the same type apart: the field that the type's
+// constructors fill from one of their parameters (configuration handed in) as opposed to fields left at a default and set
+// by options. Used for plain-typed fields (string, int) where a feature may add a sibling of the same type.
+func fieldByTypeCtor(w *World, base *Term, want string) *Term {
+	f := fieldByType(base, want)
+	if !strings.HasPrefix(f.Name, "?ambiguous:") {
+		return f
+	}
+	t := base.Typ
+	if p, ok := t.Underlying().(*types.Pointer); ok {
+		t = p.Elem()
+	}
+	named, ok := t.(*types.Named)
+	if !ok || named.Obj().Pkg() == nil {
+		return f
+	}
+	var picked string
+	for _, fn := range w.prodFns() {
+		if fn.Parent() != nil || fn.Signature.Recv() != nil || pkgPathOf(fn) != named.Obj().Pkg().Path() || fn.Signature.Results().Len() == 0 {
+			continue
+		}
+		rt := fn.Signature.Results().At(0).Type()
+		if p, ok := rt.Underlying().(*types.Pointer); ok {
+			rt = p.Elem()
+		}
+		if !types.Identical(rt, named) {
+			continue
+		}
+		e := w.engine(3, 1)
+		for _, s := range e.Explore(fn) {
+			if s.Panic || len(s.Rets) == 0 || s.Rets[0] == nil {
+				continue
+			}
+			v := s.Rets[0]
+			if v.Kind != "alloc" {
+				continue
+			}
+			st := named.Underlying().(*types.Struct)
+			for i := 0; i < st.NumFields(); i++ {
+				if typeStr(st.Field(i).Type()) != want {
+					continue
+				}
+				if fv := memField(s, v, st.Field(i).Name()); fv != nil && fv.Kind == "param" {
+					if picked != "" && picked != st.Field(i).Name() {
+						return f
+					}
+					picked = st.Field(i).Name()
+				}
+			}
+		}
+	}
+	if os.Getenv("WCHECK_DEBUG_CTOR") != "" {
+		fmt.Fprintf(os.Stderr, "fieldByTypeCtor %s want=%s picked=%q\n", named, want, picked)
+	}
+	if picked == "" {
+		return f
+	}
+	st := named.Underlying().(*types.Struct)
+	for i := 0; i < st.NumFields(); i++ {
+		if st.Field(i).Name() == picked {
+			return mk("field", picked, 0, st.Field(i).Type(), base)
+		}
+	}
+	return f
 }
